@@ -166,9 +166,22 @@ def int_semantics(repo, run, fn, idx):
 
 
 def raw_reads(repo, run, fn):
-    rid = run.rule("C19.3", "__getitem__ reads only the trimmed views self.t / self.y, never the raw buffers (which contain unwritten rows beyond counter)", floor=1)
+    rid = run.rule("C19.3", "the sequence protocol of the system (__getitem__, and __iter__ / __reversed__ / __contains__ where defined) reads only the trimmed views "
+                            "self.t / self.y, never the raw buffers (which hold pre-allocated, unwritten rows beyond counter while a run is in progress or before the first one)", floor=1)
     bad = [n for n in ast.walk(fn) if (is_self_attr(n, "__t") or is_self_attr(n, "__y")) and isinstance(n.ctx, ast.Load)]
     run.judged(rid, "raw buffer reads in __getitem__: %d" % len(bad), ok=not bad)
+    # iteration falls back to __getitem__ + IndexError when no __iter__ is defined; a dedicated __iter__ (or __reversed__, __contains__) is held to the same rule
+    for extra in ("__iter__", "__reversed__", "__contains__"):
+        f2 = repo.maybe(DS, "OdeSystem." + extra)
+        if f2 is None:
+            continue
+        run.analysed_fn(DS, f2)
+        b2 = [n for n in ast.walk(f2) if (is_self_attr(n, "__t") or is_self_attr(n, "__y")) and isinstance(n.ctx, ast.Load)]
+        run.judged(rid, "raw buffer reads in %s: %d" % (extra, len(b2)), ok=not b2)
+        for n in b2[:2]:
+            run.report("C19.3", DS, n._parent if isinstance(n._parent, (ast.Call, ast.Subscript)) else n,
+                       "%s walks the raw buffer `%s`: before the first run, and inside a step callback, the buffers hold pre-allocated rows beyond the recorded ones, so "
+                       "iteration yields extra (t=0, y=0) items after the recorded steps instead of 'each recorded (t, y) once, in order'" % (extra, src(n)))
     for n in bad[:2]:
         st = n
         while not isinstance(st, ast.stmt):
